@@ -243,7 +243,35 @@ def r11_3(ctx, repo):
             recreated = clone is not None and any(
                 isinstance(s, ast.Assign) and U(s.targets[0]) ==
                 '%s.%s' % (clone, attr) for s in fn.body)
-            if restored and recreated:
+            shared = None
+            if recreated:
+                # the value given to the clone must be a fresh object
+                for st in fn.body:
+                    if isinstance(st, ast.Assign) and U(st.targets[0]) == \
+                            '%s.%s' % (clone, attr):
+                        v = st.value
+                        hops = 0
+                        while isinstance(v, ast.Name) and hops < 4:
+                            d = [a for a in fn.body if isinstance(
+                                a, ast.Assign) and U(a.targets[0]) == v.id
+                                and a.lineno < st.lineno]
+                            if not d:
+                                break
+                            v = d[-1].value
+                            hops += 1
+                        if _self_field(v) == f or (isinstance(
+                                v, ast.Attribute) and U(v) == f):
+                            shared = st
+            if restored and recreated and shared is not None:
+                ctx.violation(
+                    rule, repo.loc(shared, cls, 'copy'), construct,
+                    'clone shares %s' % f,
+                    'copy() gives the clone the original\'s own `%s` '
+                    '(`%s`): both objects then drive one nested model / '
+                    'solver, so configuring one (outputs, dosing regimen, '
+                    'sensitivities, fixed parameters) changes the other'
+                    % (f, norm_stmt(shared)[:60]))
+            elif restored and recreated:
                 ctx.ok(rule, where, construct, '%s is restored on the '
                        'original and re-created on the clone' % f)
             else:
